@@ -28,6 +28,10 @@ def lib():
         handle.vshim_fired.restype = ctypes.c_long
         handle.vshim_set_signal.argtypes = [ctypes.c_int]
         handle.vshim_set_signal.restype = None
+        handle.vshim_sleep_virtual.argtypes = [ctypes.c_int, ctypes.c_long, ctypes.c_void_p]
+        handle.vshim_sleep_virtual.restype = None
+        handle.vshim_sleep_calls.restype = ctypes.c_long
+        handle.vshim_sleep_seconds.restype = ctypes.c_double
         handle.vshim_log.argtypes = [ctypes.c_long, ctypes.c_char_p, ctypes.c_int]
         handle.vshim_log.restype = ctypes.c_int
         _LIB = handle
@@ -71,3 +75,28 @@ def call_log():
         call, file, size, off = buf.value.decode().split()
         out.append((call, file, int(size), int(off)))
     return out
+
+
+_HOOK_TYPE = ctypes.CFUNCTYPE(None, ctypes.c_long)
+_HOOK_KEEPALIVE = []
+
+
+def virtual_sleep(on, every=0, hook=None):
+    """Serve C-level sleeps (usleep / nanosleep / sleep) from the simulated clock.
+    `hook(count)` is called every `every` sleeps: the simulator's chance to let a
+    lock-holding peer act while the step is waiting inside C code."""
+    if not available():
+        return
+    if hook is not None:
+        cb = _HOOK_TYPE(hook)
+        _HOOK_KEEPALIVE[:] = [cb]
+        lib().vshim_sleep_virtual(1 if on else 0, every, ctypes.cast(cb, ctypes.c_void_p))
+    else:
+        _HOOK_KEEPALIVE[:] = []
+        lib().vshim_sleep_virtual(1 if on else 0, 0, None)
+
+
+def sleep_stats():
+    if not available():
+        return 0, 0.0
+    return lib().vshim_sleep_calls(), lib().vshim_sleep_seconds()
